@@ -367,8 +367,8 @@ class Rule(NamedBox):
 
     @staticmethod
     def param_repr(p):
-        # NOTE: a bare word reads back as a string, but bare digits or True/False/None do not
-        isword = isinstance(p, str) and p.isidentifier() and p not in {'True', 'False', 'None'}
+        # NOTE: a bare word reads back as a string, but bare digits, True/False/None or true/false/null do not
+        isword = isinstance(p, str) and p.isidentifier() and p not in {'True', 'False', 'None', 'true', 'false', 'null'}
         if (isinstance(p, int | float) and not isinstance(p, bool)) or isword:
             return str(p)
         else:
